@@ -39,7 +39,10 @@ def findAtPosition (pkgs : List PkgInfo) (line ch : Nat) : Option PkgInfo :=
 
 /-- `extract_version_prefix` -/
 def extractPrefix (v : Text) : Text :=
-  if startsWith v ">=".toList then ">=".toList
+  if startsWith v "===".toList then "===".toList
+  else if startsWith v "==".toList then "==".toList
+  else if startsWith v "~=".toList then "~=".toList
+  else if startsWith v ">=".toList then ">=".toList
   else if startsWith v "<=".toList then "<=".toList
   else if startsWith v ">".toList then ">".toList
   else if startsWith v "<".toList then "<".toList
